@@ -93,7 +93,24 @@ def m_iclamp(it, args, callee, depth):
     return ("symop", "iclamp", A.deref_all(it, args[0]), (A.deref_all(it, args[1]), A.deref_all(it, args[2])))
 
 
-MODELS = {"$u32>::from_be_bytes": m_be, "$u32>::from_le_bytes": m_le, "$u32>::rotate_right": m_rot(True), "$u32>::rotate_left": m_rot(False),
+def m_iminmax(which):
+    """Ord::max / Ord::min on a symbolic integer; max(.., lo).min(hi) and min(.., hi).max(lo) with constant lo <= hi are the clamp"""
+    def f(it, args, callee, depth):
+        a, b = A.deref_all(it, args[0]), A.deref_all(it, args[1])
+        if isinstance(a, int) and isinstance(b, int):
+            return NotImplemented
+        if isinstance(a, int):
+            a, b = b, a
+        if isinstance(b, int) and isinstance(a, tuple) and a[0] == "symop" and a[1] in ("imax", "imin") and a[1] != which and isinstance(a[3], int):
+            lo, hi = (a[3], b) if which == "imin" else (b, a[3])
+            if lo <= hi:
+                return ("symop", "iclamp", a[2], (lo, hi))
+        return ("symop", which, a, b)
+    return f
+
+
+MODELS = {"cmp::Ord::max": m_iminmax("imax"), "cmp::Ord::min": m_iminmax("imin"), "$i32>::max": m_iminmax("imax"), "$i32>::min": m_iminmax("imin"),
+          "$u32>::from_be_bytes": m_be, "$u32>::from_le_bytes": m_le, "$u32>::rotate_right": m_rot(True), "$u32>::rotate_left": m_rot(False),
           "cmp::Ord::clamp": m_iclamp, "$i32>::clamp": m_iclamp}
 
 
@@ -219,7 +236,7 @@ def sector_rules(rep, prog):
         # a sextant helper shared by the two siblings is inlined for the selector rule
         b = prog.inlined(b0, depth=2, pred=lambda cb: cb.path.startswith(C))
         sl = T.Slicer(b)
-        sw = [(bi, blk["term"]) for bi, blk in enumerate(b.blocks) if blk["term"]["k"] == "SwitchInt" and len(blk["term"].get("targets", [])) >= 6]
+        sw = [(bi, blk["term"]) for bi, blk in enumerate(b.blocks) if blk["term"]["k"] == "SwitchInt" and len(blk["term"].get("targets", [])) >= 5]   # (the last sextant may be a range / catch-all arm)
         rep.floor("C16.K6.%s.%s" % (label, cfg), len(sw), 1, "six-way sector switch in %s to_rgb" % label)
         bi, t = sw[0]
         d = T.strip(sl.operand(t["discr"]), sites=True, refs=True)
